@@ -350,7 +350,12 @@ func SubscribeWithReplay[T any](
 		offset := bus.lastOffset
 		bus.storeMu.RUnlock()
 
-		subStore.SaveOffset(ctx, subscriptionID, offset)
+		// Nothing has been appended by this bus yet (e.g. the append of this
+		// very event failed on a fresh bus): saving OffsetOldest would move
+		// the subscription's position backwards.
+		if offset != OffsetOldest {
+			subStore.SaveOffset(ctx, subscriptionID, offset)
+		}
 	}
 
 	return Subscribe(bus, wrappedHandler, opts...)
